@@ -6,7 +6,7 @@ from hypothesis import strategies as st
 
 from engine import lib, scen, spec_order, xforms, zz9enc
 from engine.oracle import Oracle, apparent_dims, empty_cols, empty_rows, empty_strand_rows
-from engine.runner import SubCheck
+from engine.runner import SubCheck, fuzz_subcheck
 
 PROPERTY = "C07"
 RULE = (
@@ -313,4 +313,6 @@ SUBCHECKS = [
     SubCheck("random-strands", case_st([("cat",), ("cat",), ("mr",), ("cat_date",), ("text",)]),
              judge, quick=1200, thorough=20000),
     SubCheck("enumerated-strands", None, judge, kind="enumerate", enumerate_fn=_enum_cases),
+    # coverage-guided tier (thorough only): atheris drives the same strategy and judge
+    fuzz_subcheck("fuzz-random-slices", "random-slices", quick_runs=0, thorough_runs=12000),
 ]
